@@ -720,6 +720,19 @@ def translate_radec(fn: ast.FunctionDef) -> str:
                 lines.append("  let sign : Bool := " + (c if v.body.value == "-" else f"!{c}"))
                 env[st.targets[0].id] = "sign!"      # marks a sign variable
                 continue
+        if isinstance(st, ast.If) and len(st.body) == 1 and len(st.orelse) == 1 \
+                and all(isinstance(x, ast.Assign) and isinstance(x.targets[0], ast.Name) and isinstance(x.value, ast.Constant)
+                        for x in (st.body[0], st.orelse[0])) and st.body[0].targets[0].id == st.orelse[0].targets[0].id:
+            # `if c: sign = "-" else: sign = "+"` is the conditional expression
+            stmts_ifexp = ast.Assign(targets=[st.body[0].targets[0]],
+                                     value=ast.IfExp(test=st.test, body=st.body[0].value, orelse=st.orelse[0].value))
+            v = stmts_ifexp.value
+            if isinstance(v.test, ast.Compare) and len(v.test.ops) == 1 and isinstance(v.test.ops[0], ast.Lt) \
+                    and ast.unparse(v.test.comparators[0]) == "0" and {v.body.value, v.orelse.value} == {"-", "+"}:
+                c = f"decide ({q(v.test.left)} < 0)"
+                lines.append("  let sign : Bool := " + (c if v.body.value == "-" else f"!{c}"))
+                env[st.body[0].targets[0].id] = "sign!"
+                continue
         if isinstance(st, ast.Assign) and isinstance(st.value, ast.JoinedStr) and isinstance(st.targets[0], ast.Name):
             values = flat(st.value)
             if sum(isinstance(k, ast.FormattedValue) for k in values) != 7:
